@@ -11,6 +11,7 @@ package keeper
 //@   requires #count-matches-list: k.vault.GetLengthOfVault(ctx) <= len(k.vault.GetVaults(ctx))
 //@   requires #batch-bound: k.GetParams(ctx).LiquidationBatchSize <= pow2(62) && len(k.vault.GetVaults(ctx)) <= pow2(62)
 //@   nopanic
+//@   ensures [C09] #c09-sweep-isolates-item-failures: result == nil
 
 
 //@ pred debtOf(v): v.AmountOut + v.InterestAccumulated + v.ClosingFeeAccumulated
@@ -49,4 +50,9 @@ package keeper
 //@   modifies liquidationsV2
 //@   requires #batch-bound: k.GetParams(ctx).LiquidationBatchSize <= pow2(62) && len(k.lend.GetBorrows(ctx).0) <= pow2(62)
 //@   nopanic
+//@   ensures [C09] #c09-sweep-isolates-item-failures: result == nil
 //@   ensures [C09] #c09-own-offset: result == nil && k.lend.GetBorrows(ctx).1 ==> k.GetLiquidationOffsetHolder(ctx, "vault-liquidations", offsetCounterId).1 && k.GetLiquidationOffsetHolder(ctx, "vault-liquidations", offsetCounterId).0.AppId == offsetCounterId
+
+// Note (C09): Keeper.Liquidate runs the vault sweep, the borrow sweep and the surplus/debt pass in sequence and stops at the
+// first error; because each sweep is proved never to return an error (#c09-sweep-isolates-item-failures), the vault sweep
+// cannot starve the borrow sweep.
